@@ -405,4 +405,1069 @@ theorem RInv.sub_case {r sub subs M sub'} (h : RInv r (sub :: subs) M)
     · obtain ⟨a', h, h'⟩ := h.subsB s (List.mem_cons_of_mem _ hs) b hb'
       exact ⟨a', by grind [brk_not_caseOrNop], h'⟩
 
+/-! ## The loop invariant of `parse_helper` -/
+
+theorem maxNext_le {subs : List Sub} (h : ∀ s ∈ subs, s.saveNext ≤ 255) : maxNext subs ≤ 255 := by
+  induction subs with
+  | nil => simp [maxNext]
+  | cons s ss ih =>
+    have h1 := h s (by simp)
+    have h2 := ih (fun s hs => h s (List.mem_cons_of_mem _ hs))
+    simp only [maxNext]; omega
+
+structure Inv (st : PSt) : Prop where
+  r : RInv st.result st.subs (max st.save (maxNext st.subs))
+  save_le : st.save ≤ 255
+  depth_le : st.depth ≤ 255
+  subs_le : ∀ s ∈ st.subs, s.save ≤ 255 ∧ s.saveNext ≤ 255 ∧ s.depth ≤ 255
+
+theorem Inv.hi_le {st} (h : Inv st) : max st.save (maxNext st.subs) ≤ 255 := by
+  have := h.save_le
+  have := maxNext_le (fun s hs => (h.subs_le s hs).2.1)
+  omega
+
+/-- a step that neither panics nor breaks `P` -/
+def Res.Good {α : Type} (P : α → Prop) : Res α → Prop
+  | .ok a => P a
+  | .err _ => True
+  | .panic _ => False
+
+theorem Inv.pushA {st a} (h : Inv st) (hp : isPlain a = true) (ha : argOf a < 256) (hs : slotOf a = none) :
+    Inv (pushA st a) :=
+  ⟨h.r.push_plain hp ha (by simp [hs]), h.save_le, h.depth_le, h.subs_le⟩
+
+theorem opOpen_good {st} (h : Inv st) : (opOpen st).Good Inv := by
+  unfold opOpen
+  split
+  · trivial
+  · split
+    · omega
+    · split
+      · next hb => exact ⟨h.r.open_ hb (Or.inl ⟨rfl, rfl⟩), h.save_le, by simp; omega, h.subs_le⟩
+      · next hb => exact ⟨h.r.open_ hb (Or.inr (Or.inl ⟨rfl, rfl⟩)), h.save_le, by simp; omega, h.subs_le⟩
+      · next hb => exact ⟨h.r.open_ hb (Or.inr (Or.inr ⟨rfl, rfl⟩)), h.save_le, by simp; omega, h.subs_le⟩
+      · trivial
+
+theorem opClose_good {st} (h : Inv st) : (opClose st).Good Inv := by
+  unfold opClose
+  split
+  · trivial
+  · split
+    · omega
+    · exact ⟨h.r.push_plain rfl (by simp [argOf]) (by simp [slotOf]), h.save_le, by have := h.depth_le; simp; omega, h.subs_le⟩
+
+theorem opSubStart_good {st} (h : Inv st) : (opSubStart st).Good Inv := by
+  unfold opSubStart
+  refine ⟨?_, h.save_le, h.depth_le, ?_⟩
+  · have := h.r.sub_start (sub := { case := st.result.size, brks := [], save := st.save, saveNext := 0, depth := st.depth }) rfl rfl
+    simpa [maxNext] using this
+  · intro s hs
+    rcases List.mem_cons.mp hs with rfl | hs
+    · exact ⟨h.save_le, by simp, h.depth_le⟩
+    · exact h.subs_le s hs
+
+theorem opSubCase_good {st} (h : Inv st) : (opSubCase st).Good Inv := by
+  unfold opSubCase
+  split
+  · trivial
+  · next sub subs hsubs =>
+    have hr := h.r
+    rw [hsubs] at hr
+    have hsl := h.subs_le
+    rw [hsubs] at hsl
+    have hsub := hsl sub (by simp)
+    simp only [Array.size_push, Array.size_setIfInBounds]
+    by_cases hoff : st.result.size + 1 - sub.case - 1 ≥ 256
+    · have hc : sub.case < st.result.size := by
+        obtain ⟨a, ha, _⟩ := hr.subsC sub (by simp); grind
+      rw [if_neg (by omega), if_pos hoff]; trivial
+    · obtain ⟨hr', hc⟩ := hr.sub_case (sub' := { sub with saveNext := max sub.saveNext st.save, brks := sub.brks ++ [st.result.size], case := st.result.size + 1 })
+        (by omega) rfl rfl
+      rw [if_neg (by omega), if_neg hoff, if_neg (by omega)]
+      refine ⟨?_, hsub.1, hsub.2.2, ?_⟩
+      · refine hr'.mono ?_
+        simp only [maxNext]; omega
+      · intro s hs
+        rcases List.mem_cons.mp hs with rfl | hs
+        · have := h.save_le
+          exact ⟨hsub.1, by simp; omega, hsub.2.2⟩
+        · exact hsl s (List.mem_cons_of_mem _ hs)
+
+theorem fillBrks_good {subs M} : ∀ (brks : List Nat) (r : Array Atom), RInv r subs M →
+    (∀ b ∈ brks, ∃ a, r[b]? = some a ∧ isBrk a = true) →
+    (fillBrks r brks).Good (fun r' => RInv r' subs M) := by
+  intro brks
+  induction brks with
+  | nil => intro r h _; exact h
+  | cons b bs ih =>
+    intro r h hb
+    obtain ⟨a, ha, hab⟩ := hb b (by simp)
+    have hbs : b < r.size := by grind
+    unfold fillBrks
+    rw [if_neg (by omega)]
+    by_cases hoff : r.size - b - 1 ≥ 256
+    · rw [if_pos hoff]; trivial
+    · rw [if_neg hoff, if_neg (by omega)]
+      apply ih _ (h.set_brk ha hab (by omega))
+      intro b' hb'
+      obtain ⟨a', ha', hab'⟩ := hb b' (List.mem_cons_of_mem _ hb')
+      by_cases hbb : b' = b
+      · exact ⟨.brk (r.size - b - 1), by grind, rfl⟩
+      · exact ⟨a', by grind, hab'⟩
+
+theorem opSubEnd_good {st} (h : Inv st) : (opSubEnd st).Good Inv := by
+  unfold opSubEnd
+  split
+  · trivial
+  · next sub subs hsubs =>
+    have hr := h.r
+    rw [hsubs] at hr
+    have hsl := h.subs_le
+    rw [hsubs] at hsl
+    have hsub := hsl sub (by simp)
+    obtain ⟨hr', hc⟩ := hr.set_nop
+    rw [if_neg (by omega)]
+    have hb : ∀ b ∈ sub.brks, ∃ a, (st.result.setIfInBounds sub.case .nop)[b]? = some a ∧ isBrk a = true := by
+      intro b hb
+      obtain ⟨a, ha, hab⟩ := hr.subsB sub (by simp) b hb
+      obtain ⟨a', ha', hab'⟩ := hr.subsC sub (by simp)
+      exact ⟨a, by grind [brk_not_caseOrNop], hab⟩
+    have := fillBrks_good sub.brks _ hr' hb
+    dsimp only
+    generalize fillBrks (st.result.setIfInBounds sub.case .nop) sub.brks = fb at this ⊢
+    revert this
+    cases fb with
+    | ok r' =>
+      intro hr''
+      show Inv _
+      refine ⟨?_, ?_, hsub.2.2, fun s hs => hsl s (List.mem_cons_of_mem _ hs)⟩
+      · refine RInv.mono hr'' ?_
+        simp only [maxNext]; omega
+      · have := h.save_le; simp; omega
+    | err k => intro _; trivial
+    | panic s => intro h; exact h
+
+theorem opSlot_good {st} {mk : Nat → Atom} (h : Inv st)
+    (hmk : ∀ n, isPlain (mk n) = true ∧ argOf (mk n) = n ∧ slotOf (mk n) = some n) :
+    (opSlot st mk).Good Inv := by
+  unfold opSlot
+  split
+  · trivial
+  · split
+    · omega
+    · obtain ⟨h1, h2, h3⟩ := hmk st.save
+      refine ⟨?_, by simp; omega, h.depth_le, h.subs_le⟩
+      refine (h.r.mono (M' := max (st.save + 1) (maxNext st.subs)) (by omega)).push_plain h1 (by omega) ?_
+      intro k hk
+      rw [h3] at hk
+      cases hk
+      omega
+
+theorem opSkip_inv {st} (h : Inv st) : Inv (opSkip st).1 := by
+  have hplain : Inv (pushA st (.skip 1)) := h.pushA rfl (by simp [argOf]) rfl
+  unfold opSkip
+  split
+  · split
+    · next n hb =>
+      split
+      · exact ⟨h.r.skip_inc hb (by omega), h.save_le, h.depth_le, h.subs_le⟩
+      · exact hplain
+    · exact hplain
+  · exact hplain
+
+theorem manyLower_good : ∀ (cs : List UInt8) (lb : Nat) (seen : Bool), lb < 16384 →
+    (manyLower cs lb seen).Good (fun p => p.1 < 16384 ∧ p.2.2.2 <:+ cs) := by
+  intro cs
+  induction cs with
+  | nil => intro lb seen _; trivial
+  | cons c cs ih =>
+    intro lb seen hlb
+    unfold manyLower
+    dsimp only
+    split
+    · exact ⟨hlb, List.suffix_cons c cs⟩
+    · split
+      · rw [if_neg (by omega), if_neg (by omega)]
+        split
+        · trivial
+        · next hlt =>
+          have := ih (lb * 10 + (c.toNat - 48)) true (by omega)
+          revert this
+          cases manyLower cs (lb * 10 + (c.toNat - 48)) true with
+          | ok p => intro ⟨h1, h2⟩; exact ⟨h1, h2.trans (List.suffix_cons c cs)⟩
+          | err k => intro _; trivial
+          | panic s => intro h; exact h
+      · trivial
+
+theorem manyUpper_good : ∀ (cs : List UInt8) (ub : Nat), ub < 16384 →
+    (manyUpper cs ub).Good (fun p => p.1 < 16384 ∧ p.2 <:+ cs) := by
+  intro cs
+  induction cs with
+  | nil => intro ub _; trivial
+  | cons c cs ih =>
+    intro ub hub
+    unfold manyUpper
+    dsimp only
+    split
+    · exact ⟨hub, List.suffix_cons c cs⟩
+    · split
+      · rw [if_neg (by omega), if_neg (by omega)]
+        split
+        · trivial
+        · next hlt =>
+          have := ih (ub * 10 + (c.toNat - 48)) (by omega)
+          revert this
+          cases manyUpper cs (ub * 10 + (c.toNat - 48)) with
+          | ok p => intro ⟨h1, h2⟩; exact ⟨h1, h2.trans (List.suffix_cons c cs)⟩
+          | err k => intro _; trivial
+          | panic s => intro h; exact h
+      · trivial
+
+theorem RInv.emitRange {r subs M n} {mk : Nat → Atom} (h : RInv r subs M)
+    (hmk : ∀ x, isPlain (mk x) = true ∧ argOf (mk x) = x ∧ slotOf (mk x) = none) :
+    RInv (emitRange r n mk) subs M := by
+  unfold Pelite.Pattern.emitRange
+  obtain ⟨h1, h2, h3⟩ := hmk (n % 256)
+  dsimp only
+  split
+  · exact (h.push_plain rfl (by simp [argOf]; omega) (by simp [slotOf])).push_plain h1 (by omega) (by simp [h3])
+  · exact h.push_plain h1 (by omega) (by simp [h3])
+
+/-- what every arm guarantees about its successor state -/
+def NextOK (rest : List UInt8) (nx : Next) : Prop := Inv nx.st ∧ nx.rest <:+ rest
+
+theorem liftSt_good {rest} {x : Res PSt} (h : x.Good Inv) : (liftSt rest x).Good (NextOK rest) := by
+  cases x with
+  | ok st => exact ⟨h, List.suffix_refl _⟩
+  | err k => trivial
+  | panic s => exact h
+
+theorem opMany_good {st rest} (h : Inv st) : (opMany st rest).Good (NextOK rest) := by
+  unfold opMany
+  have hl := manyLower_good rest 0 false (by omega)
+  revert hl
+  cases manyLower rest 0 false with
+  | err k => intro _; trivial
+  | panic s => intro h; exact h
+  | ok p =>
+    obtain ⟨lb, seen, chr, rest1⟩ := p
+    intro ⟨hlb, hsuf⟩
+    dsimp only at hlb hsuf ⊢
+    have hskip : ∀ x, isPlain (Atom.skip x) = true ∧ argOf (Atom.skip x) = x ∧ slotOf (Atom.skip x) = none :=
+      fun x => ⟨rfl, rfl, rfl⟩
+    have hmany : ∀ x, isPlain (Atom.many x) = true ∧ argOf (Atom.many x) = x ∧ slotOf (Atom.many x) = none :=
+      fun x => ⟨rfl, rfl, rfl⟩
+    have hr1 : RInv (if lb > 0 then emitRange st.result lb .skip else st.result) st.subs (max st.save (maxNext st.subs)) := by
+      split
+      · exact h.r.emitRange hskip
+      · exact h.r
+    split
+    · trivial
+    · split
+      · exact ⟨⟨hr1, h.save_le, h.depth_le, h.subs_le⟩, hsuf⟩
+      · have hu := manyUpper_good rest1 0 (by omega)
+        revert hu
+        cases manyUpper rest1 0 with
+        | err k => intro _; trivial
+        | panic s => intro h; exact h
+        | ok q =>
+          obtain ⟨ub, rest2⟩ := q
+          intro ⟨hub, hsuf2⟩
+          dsimp only at hub hsuf2 ⊢
+          split
+          · rw [if_neg (by omega)]
+            exact ⟨⟨hr1.emitRange hmany, h.save_le, h.depth_le, h.subs_le⟩, hsuf2.trans hsuf⟩
+          · trivial
+
+theorem opHex_good {st chr rest} (h : Inv st) (hc : (48 ≤ chr ∧ chr ≤ 57) ∨ (65 ≤ chr ∧ chr ≤ 70) ∨ (97 ≤ chr ∧ chr ≤ 102)) :
+    (opHex st chr rest).Good (NextOK rest) := by
+  unfold opHex
+  rw [if_neg (by omega)]
+  dsimp only
+  have hhi : (if chr ≥ 97 then chr - 97 + 10 else if chr ≥ 65 then chr - 65 + 10 else chr - 48) < 16 := by
+    split
+    · omega
+    · split <;> omega
+  generalize (if chr ≥ 97 then chr - 97 + 10 else if chr ≥ 65 then chr - 65 + 10 else chr - 48) = hi at hhi ⊢
+  rw [if_neg (by omega)]
+  cases rest with
+  | nil => trivial
+  | cons c rest =>
+    dsimp only
+    have hlo : ∀ lo, (if c.toNat ≥ 97 ∧ c.toNat ≤ 102 then some (c.toNat - 97 + 10)
+      else if c.toNat ≥ 65 ∧ c.toNat ≤ 70 then some (c.toNat - 65 + 10)
+      else if c.toNat ≥ 48 ∧ c.toNat ≤ 57 then some (c.toNat - 48) else none) = some lo → lo < 16 := by
+      intro lo
+      split
+      · intro h; cases h; omega
+      · split
+        · intro h; cases h; omega
+        · split
+          · intro h; cases h; omega
+          · intro h; cases h
+    revert hlo
+    generalize (if c.toNat ≥ 97 ∧ c.toNat ≤ 102 then some (c.toNat - 97 + 10)
+      else if c.toNat ≥ 65 ∧ c.toNat ≤ 70 then some (c.toNat - 65 + 10)
+      else if c.toNat ≥ 48 ∧ c.toNat ≤ 57 then some (c.toNat - 48) else none) = lo?
+    intro hlo
+    cases lo? with
+    | none => trivial
+    | some lo =>
+      have := hlo lo rfl
+      dsimp only
+      rw [if_neg (by omega)]
+      exact ⟨h.pushA rfl (by simp [argOf]; omega) rfl, List.suffix_cons c rest⟩
+
+theorem quoted_good {subs M} : ∀ (cs : List UInt8) (r : Array Atom), RInv r subs M →
+    ∀ r' rest', quoted cs r = some (r', rest') → RInv r' subs M ∧ rest' <:+ cs := by
+  intro cs
+  induction cs with
+  | nil => intro r _ r' rest' h; simp [quoted] at h
+  | cons c cs ih =>
+    intro r hr r' rest' h
+    unfold quoted at h
+    split at h
+    · obtain ⟨h1, h2⟩ := ih _ (hr.push_plain rfl (by simp [argOf]; exact UInt8.toNat_lt c) (by simp [slotOf])) r' rest' h
+      exact ⟨h1, h2.trans (List.suffix_cons c cs)⟩
+    · cases h
+      exact ⟨hr, List.suffix_cons c cs⟩
+
+theorem opQuote_good {st rest} (h : Inv st) : (opQuote st rest).Good (NextOK rest) := by
+  unfold opQuote
+  split
+  · trivial
+  · next r rest' hq =>
+    obtain ⟨h1, h2⟩ := quoted_good rest st.result h.r r rest' hq
+    exact ⟨⟨h1, h.save_le, h.depth_le, h.subs_le⟩, h2⟩
+
+theorem opAligned_good {st rest} (h : Inv st) : (opAligned st rest).Good (NextOK rest) := by
+  unfold opAligned
+  cases rest with
+  | nil => trivial
+  | cons o rest =>
+    dsimp only
+    split
+    · exact ⟨h.pushA rfl (by simp [argOf]; omega) rfl, List.suffix_cons o rest⟩
+    · split
+      · rw [if_neg (by omega)]
+        exact ⟨h.pushA rfl (by simp [argOf]; omega) rfl, List.suffix_cons o rest⟩
+      · split
+        · rw [if_neg (by omega)]
+          exact ⟨h.pushA rfl (by simp [argOf]; omega) rfl, List.suffix_cons o rest⟩
+        · trivial
+
+theorem opRead_good {st rest} {mk1 mk2 mk4 : Nat → Atom} (h : Inv st)
+    (h1 : ∀ n, isPlain (mk1 n) = true ∧ argOf (mk1 n) = n ∧ slotOf (mk1 n) = some n)
+    (h2 : ∀ n, isPlain (mk2 n) = true ∧ argOf (mk2 n) = n ∧ slotOf (mk2 n) = some n)
+    (h4 : ∀ n, isPlain (mk4 n) = true ∧ argOf (mk4 n) = n ∧ slotOf (mk4 n) = some n) :
+    (opRead st rest mk1 mk2 mk4).Good (NextOK rest) := by
+  unfold opRead
+  cases rest with
+  | nil => trivial
+  | cons c rest =>
+    dsimp only
+    have key : ∀ mk : Nat → Atom, (∀ n, isPlain (mk n) = true ∧ argOf (mk n) = n ∧ slotOf (mk n) = some n) →
+        Res.Good (NextOK (c :: rest)) (match opSlot st mk with
+          | .ok st => .ok ⟨st, rest, true⟩
+          | .err k => .err k
+          | .panic s => .panic s) := by
+      intro mk hmk
+      have := opSlot_good h hmk
+      revert this
+      cases opSlot st mk with
+      | ok st' => intro h'; exact ⟨h', List.suffix_cons c rest⟩
+      | err k => intro _; trivial
+      | panic s => intro h; exact h
+    have hmk : ∀ mk, (if c.toNat = 49 then some mk1 else if c.toNat = 50 then some mk2
+        else if c.toNat = 52 then some mk4 else none) = some mk →
+        ∀ n, isPlain (mk n) = true ∧ argOf (mk n) = n ∧ slotOf (mk n) = some n := by
+      intro mk
+      split
+      · intro h; cases h; exact h1
+      · split
+        · intro h; cases h; exact h2
+        · split
+          · intro h; cases h; exact h4
+          · intro h; cases h
+    revert hmk
+    generalize (if c.toNat = 49 then some mk1 else if c.toNat = 50 then some mk2
+        else if c.toNat = 52 then some mk4 else none) = mk?
+    intro hmk
+    cases mk? with
+    | none => trivial
+    | some mk => exact key mk (hmk mk rfl)
+
+theorem classify_hex : ∀ c < 256, classify c = .hex → (48 ≤ c ∧ c ≤ 57) ∨ (65 ≤ c ∧ c ≤ 70) ∨ (97 ≤ c ∧ c ≤ 102) := by
+  decide +kernel
+
+/-- every arm of the `match`: no panic, the invariant is kept, the iterator only moves forward -/
+theorem tok_good {st} (chr : Nat) (rest : List UInt8) (h : Inv st) (hchr : chr < 256) : (tok chr rest st).Good (NextOK rest) := by
+  unfold tok
+  split
+  · exact ⟨h.pushA rfl (by simp [argOf]) rfl, List.suffix_refl _⟩
+  · exact ⟨h.pushA rfl (by simp [argOf]) rfl, List.suffix_refl _⟩
+  · exact ⟨h.pushA rfl (by simp [argOf]) rfl, List.suffix_refl _⟩
+  · exact liftSt_good (opOpen_good h)
+  · exact liftSt_good (opClose_good h)
+  · exact liftSt_good (opSubStart_good h)
+  · exact liftSt_good (opSubCase_good h)
+  · exact liftSt_good (opSubEnd_good h)
+  · exact opMany_good h
+  · next hc => exact opHex_good h (classify_hex chr hchr hc)
+  · exact opQuote_good h
+  · exact liftSt_good (opSlot_good h (fun n => ⟨rfl, rfl, rfl⟩))
+  · exact ⟨opSkip_inv h, List.suffix_refl _⟩
+  · exact opAligned_good h
+  · exact opRead_good h (fun n => ⟨rfl, rfl, rfl⟩) (fun n => ⟨rfl, rfl, rfl⟩) (fun n => ⟨rfl, rfl, rfl⟩)
+  · exact opRead_good h (fun n => ⟨rfl, rfl, rfl⟩) (fun n => ⟨rfl, rfl, rfl⟩) (fun n => ⟨rfl, rfl, rfl⟩)
+  · exact liftSt_good (opSlot_good h (fun n => ⟨rfl, rfl, rfl⟩))
+  · exact ⟨h, List.suffix_refl _⟩
+  · trivial
+
+/-! ## Trimming -/
+
+theorem trim_spec (r : Array Atom) :
+    (trim r).size ≤ r.size ∧ (∀ i : Nat, i < (trim r).size → (trim r)[i]? = r[i]?) ∧
+    (∀ (i : Nat) a, (trim r).size ≤ i → r[i]? = some a → isRedundant a = true) ∧
+    (∀ a, (trim r).back? = some a → isRedundant a = false) := by
+  fun_induction trim r with
+  | case1 r hpos hred ih =>
+    obtain ⟨h1, h2, h3, h4⟩ := ih
+    refine ⟨by simp at h1; omega, ?_, ?_, h4⟩
+    · intro i hi
+      rw [h2 i hi]
+      have : i < r.size - 1 := by simp at h1; omega
+      grind
+    · intro i a hi ha
+      by_cases hil : i = r.size - 1
+      · subst hil
+        have : a = r[r.size - 1] := by grind
+        rw [this]; exact hred
+      · exact h3 i a hi (by grind)
+  | case2 r hpos hred =>
+    refine ⟨Nat.le_refl _, fun _ _ => rfl, ?_, ?_⟩
+    · intro i a hi ha; grind
+    · intro a ha
+      have : a = r[r.size - 1] := by grind
+      rw [this]; simpa using hred
+  | case3 r hpos =>
+    refine ⟨Nat.le_refl _, fun _ _ => rfl, ?_, ?_⟩
+    · intro i a hi ha; grind
+    · intro a ha; grind
+
+/-! ## The loop -/
+
+/-- the untrimmed result vector of a successful parse: all sub-patterns closed, slots below the final
+save counter `M ≤ 255` -/
+def FinalOK (r0 : Array Atom) : Prop := ∃ M, M ≤ 255 ∧ RInv r0 [] M
+
+theorem finish_good {st} (h : Inv st) :
+    match finish st with
+    | .ok r => FinalOK st.result ∧ r = trim st.result
+    | .err k => k = .stackError ∨ k = .subPattern
+    | .panic _ => False := by
+  unfold finish
+  by_cases hd : st.depth ≠ 0
+  · rw [if_pos hd]; exact Or.inl rfl
+  · rw [if_neg hd]
+    by_cases hs : st.subs.length ≠ 0
+    · rw [if_pos hs]; exact Or.inr rfl
+    · rw [if_neg hs]
+      have hsubs : st.subs = [] := by
+        cases hst : st.subs with
+        | nil => rfl
+        | cons a b => rw [hst] at hs; simp at hs
+      refine ⟨⟨_, h.hi_le, ?_⟩, rfl⟩
+      have := h.r
+      rw [hsubs] at this ⊢
+      exact this
+
+theorem parseLoop_good (s : List UInt8) : ∀ (fuel : Nat) (rest pat : List UInt8) (st : PSt),
+    Inv st → rest.length < fuel → rest <:+ pat → pat <:+ s →
+    match parseLoop fuel rest pat st with
+    | .ok r => ∃ r0, FinalOK r0 ∧ r = trim r0
+    | .err k pat' => pat' <:+ s ∧ (0 < pat'.length ∨ k = .stackError ∨ k = .subPattern)
+    | .panic _ => False
+    | .diverge => False := by
+  intro fuel
+  induction fuel with
+  | zero => intro rest pat st _ h; omega
+  | succ fuel ih =>
+    intro rest pat st hinv hfuel hrp hps
+    unfold parseLoop
+    cases rest with
+    | nil =>
+      dsimp only
+      have := finish_good hinv
+      revert this
+      cases finish st with
+      | ok r => intro ⟨h1, h2⟩; exact ⟨_, h1, h2⟩
+      | err k => intro h; exact ⟨hps, Or.inr h⟩
+      | panic site => intro h; exact h
+    | cons c rest =>
+      dsimp only
+      have := tok_good c.toNat rest hinv (UInt8.toNat_lt c)
+      revert this
+      cases tok c.toNat rest st with
+      | ok nx =>
+        intro ⟨h1, h2⟩
+        have hlen := h2.length_le
+        have hnxpat : nx.rest <:+ pat := (h2.trans (List.suffix_cons c rest)).trans hrp
+        apply ih nx.rest _ nx.st h1 (by simp at hfuel; omega)
+        · split
+          · exact List.suffix_refl _
+          · exact hnxpat
+        · split
+          · exact hnxpat.trans hps
+          · exact hps
+      | err k =>
+        intro _
+        refine ⟨hps, Or.inl ?_⟩
+        have := hrp.length_le
+        simp at this; omega
+      | panic site => intro h; exact h
+
+theorem initSt_inv : Inv initSt := by
+  refine ⟨⟨?_, ?_, ?_, ?_, ?_, ?_, ?_, ?_⟩, ?_, ?_, ?_⟩ <;> simp [initSt, maxNext]
+  · intro i k h
+    have : i = 0 := by
+      rcases Nat.eq_zero_or_pos i with h0 | h0
+      · exact h0
+      · simp [Nat.ne_of_gt h0] at h
+    subst this; simp at h
+  · intro i n h
+    have : i = 0 := by
+      rcases Nat.eq_zero_or_pos i with h0 | h0
+      · exact h0
+      · simp [Nat.ne_of_gt h0] at h
+    subst this; simp at h
+  · intro i n h
+    have : i = 0 := by
+      rcases Nat.eq_zero_or_pos i with h0 | h0
+      · exact h0
+      · simp [Nat.ne_of_gt h0] at h
+    subst this; simp at h
+  · intro i a h
+    have : i = 0 := by
+      rcases Nat.eq_zero_or_pos i with h0 | h0
+      · exact h0
+      · simp [Nat.ne_of_gt h0] at h
+    subst this; simp at h; subst h; simp [argOf]
+  · intro i a k h hk
+    have : i = 0 := by
+      rcases Nat.eq_zero_or_pos i with h0 | h0
+      · exact h0
+      · simp [Nat.ne_of_gt h0] at h
+    subst this; simp at h; subst h; simp [slotOf] at hk; omega
+
+/-- Main lemma about `parse`: never a panic, never out of fuel; an error position is an offset into
+the input; a success is the trimmed form of a vector satisfying the final invariant. -/
+theorem parse_good (s : List UInt8) :
+    match parse s with
+    | .ok atoms => ∃ r0, FinalOK r0 ∧ atoms = (trim r0).toList
+    | .err k pos => pos ≤ s.length ∧ (pos < s.length ∨ k = .stackError ∨ k = .subPattern)
+    | .panic _ => False
+    | .diverge => False := by
+  unfold parse
+  have := parseLoop_good s (s.length + 1) s s initSt initSt_inv (by omega) (List.suffix_refl _) (List.suffix_refl _)
+  revert this
+  cases parseLoop (s.length + 1) s s initSt with
+  | ok r => intro ⟨r0, h1, h2⟩; exact ⟨r0, h1, by rw [h2]⟩
+  | err k pat =>
+    intro ⟨h1, h2⟩
+    have := h1.length_le
+    dsimp only
+    rw [if_neg (by omega)]
+    dsimp only
+    refine ⟨by omega, ?_⟩
+    rcases h2 with h2 | h2
+    · exact Or.inl (by omega)
+    · exact Or.inr h2
+  | panic site => intro h; exact h
+  | diverge => intro h; exact h
+
+/-! ## List-level statements about the result -/
+
+/-- Structural well-formedness of an (untrimmed) parser output. -/
+structure WellFormed (l : List Atom) : Prop where
+  /-- the pattern starts by recording the match position in slot 0 -/
+  first : l[0]? = some (.save 0)
+  /-- `Push(k)` is directly followed by another `Push(k)` (from `{{`) or by the jump atom it belongs to -/
+  adj : ∀ (i k : Nat), l[i]? = some (.push k) → ∃ b, l[i+1]? = some b ∧ PushNext k b
+  /-- `Case(n)` at `i` points at the `Case`/`Nop` that starts the next alternative, inside the list -/
+  caseT : ∀ (i n : Nat), l[i]? = some (.case n) → ∃ a, l[i+1+n]? = some a ∧ isCaseOrNop a = true
+  /-- `Break(n)` at `i` points inside the list or exactly at its end -/
+  brkT : ∀ (i n : Nat), l[i]? = some (.brk n) → i + 1 + n ≤ l.length
+  /-- every argument fits a `u8` -/
+  args : ∀ a ∈ l, argOf a < 256
+  /-- every slot index is below 255 -/
+  slots : ∀ a ∈ l, ∀ k, slotOf a = some k → k < 255
+
+theorem FinalOK.wellFormed {r0 : Array Atom} (h : FinalOK r0) : WellFormed r0.toList := by
+  obtain ⟨M, hM, h⟩ := h
+  refine ⟨?_, ?_, ?_, ?_, ?_, ?_⟩
+  · simpa using h.first
+  · intro i k hi
+    obtain ⟨b, hb, hn⟩ := h.adj i k (by simpa using hi)
+    exact ⟨b, by simpa using hb, hn⟩
+  · intro i n hi
+    rcases h.caseT i n (by simpa using hi) with ⟨s, hs, _⟩ | ⟨a, ha, hc⟩
+    · cases hs
+    · exact ⟨a, by simpa using ha, hc⟩
+  · intro i n hi
+    simpa using h.brkT i n (by simpa using hi)
+  · intro a ha
+    obtain ⟨i, hi⟩ := List.mem_iff_getElem?.mp ha
+    exact h.args i a (by simpa using hi)
+  · intro a ha k hk
+    obtain ⟨i, hi⟩ := List.mem_iff_getElem?.mp ha
+    have := h.slots i a k (by simpa using hi) hk
+    omega
+
+theorem trim_append (r : Array Atom) :
+    ∃ tail, r.toList = (trim r).toList ++ tail ∧ (∀ a ∈ tail, isRedundant a = true) ∧
+      (∀ a, (trim r).toList[(trim r).toList.length - 1]? = some a → isRedundant a = false) := by
+  obtain ⟨h1, h2, h3, h4⟩ := trim_spec r
+  refine ⟨r.toList.drop (trim r).size, ?_, ?_, ?_⟩
+  · apply List.ext_getElem?
+    intro i
+    rw [List.getElem?_append]
+    split
+    · next hi =>
+      simp at hi
+      have := h2 i hi
+      simp [this]
+    · next hi =>
+      simp at hi
+      simp
+      congr 1
+      omega
+  · intro a ha
+    obtain ⟨i, hi⟩ := List.mem_iff_getElem?.mp ha
+    rw [List.getElem?_drop] at hi
+    have hi' : r[(trim r).size + i]? = some a := by simpa using hi
+    exact h3 _ a (by omega) hi'
+  · intro a ha
+    apply h4 a
+    rw [Array.back?_eq_getElem?]
+    simpa using ha
+
+/-- Shape of a successful parse: the returned atoms are the untrimmed, well-formed vector minus a tail
+of redundant atoms (`Skip`, `Rangext`, `Pop`, `Many`), and they do not end in a redundant atom. -/
+theorem parse_ok_struct {s : List UInt8} {atoms : List Atom} (h : parse s = .ok atoms) :
+    ∃ tail, WellFormed (atoms ++ tail) ∧ (∀ a ∈ tail, isRedundant a = true) ∧
+      (∀ a, atoms[atoms.length - 1]? = some a → isRedundant a = false) := by
+  have := parse_good s
+  rw [h] at this
+  obtain ⟨r0, hf, rfl⟩ := this
+  obtain ⟨tail, h1, h2, h3⟩ := trim_append r0
+  exact ⟨tail, by rw [← h1]; exact hf.wellFormed, h2, h3⟩
+
+theorem pushNext_not_redundant {k b} (h : PushNext k b) : isRedundant b = false := by
+  rcases h with rfl | ⟨_, rfl⟩ | ⟨_, rfl⟩ | ⟨_, rfl⟩ <;> rfl
+
+theorem caseOrNop_not_redundant {a} (h : isCaseOrNop a = true) : isRedundant a = false := by
+  cases a <;> simp [isCaseOrNop] at h <;> rfl
+
+/-- an element of `l ++ tail` that is not redundant lies in `l` when the whole tail is redundant -/
+theorem getElem?_append_of_not_redundant {l tail : List Atom} {i : Nat} {a : Atom}
+    (ht : ∀ a ∈ tail, isRedundant a = true) (h : (l ++ tail)[i]? = some a) (ha : isRedundant a = false) :
+    l[i]? = some a := by
+  rw [List.getElem?_append] at h
+  split at h
+  · exact h
+  · have := ht a (List.mem_of_getElem? h)
+    rw [ha] at this; cases this
+
+theorem getElem?_append_left' {l tail : List Atom} {i : Nat} {a : Atom} (h : l[i]? = some a) :
+    (l ++ tail)[i]? = some a := by
+  have : i < l.length := by
+    rcases Nat.lt_or_ge i l.length with h' | h'
+    · exact h'
+    · rw [List.getElem?_eq_none h'] at h; cases h
+  rw [List.getElem?_append_left this]; exact h
+
+/-! ## `save_len` -/
+
+theorem saveLen_eq (l : List Atom) :
+    saveLen l = l.foldl (fun m a => match slotOf a with | some s => max m (s + 1) | none => m) 0 := by
+  unfold saveLen
+  congr 1
+  funext m a
+  cases a <;> rfl
+
+theorem foldl_slot_ge (l : List Atom) (m0 : Nat) :
+    m0 ≤ l.foldl (fun m a => match slotOf a with | some s => max m (s + 1) | none => m) m0 := by
+  induction l generalizing m0 with
+  | nil => exact Nat.le_refl _
+  | cons a l ih =>
+    simp only [List.foldl_cons]
+    refine Nat.le_trans ?_ (ih _)
+    split
+    · exact Nat.le_max_left _ _
+    · exact Nat.le_refl _
+
+theorem foldl_slot_mem (l : List Atom) (m0 : Nat) (a : Atom) (ha : a ∈ l) (k : Nat) (hk : slotOf a = some k) :
+    k + 1 ≤ l.foldl (fun m a => match slotOf a with | some s => max m (s + 1) | none => m) m0 := by
+  induction l generalizing m0 with
+  | nil => cases ha
+  | cons b l ih =>
+    simp only [List.foldl_cons]
+    rcases List.mem_cons.mp ha with rfl | ha
+    · refine Nat.le_trans ?_ (foldl_slot_ge l _)
+      rw [hk]; exact Nat.le_max_right _ _
+    · exact ih _ ha
+
+theorem foldl_slot_le (l : List Atom) (m0 M : Nat) (h0 : m0 ≤ M)
+    (h : ∀ a ∈ l, ∀ k, slotOf a = some k → k < M) :
+    l.foldl (fun m a => match slotOf a with | some s => max m (s + 1) | none => m) m0 ≤ M := by
+  induction l generalizing m0 with
+  | nil => exact h0
+  | cons b l ih =>
+    simp only [List.foldl_cons]
+    apply ih
+    · split
+      · next s hs => have := h b (by simp) s hs; exact Nat.max_le.mpr ⟨h0, this⟩
+      · exact h0
+    · intro a ha; exact h a (List.mem_cons_of_mem _ ha)
+
+/-- the advertised save length covers every slot an atom of the pattern touches -/
+theorem saveLen_covers {l : List Atom} {a : Atom} (ha : a ∈ l) {k : Nat} (hk : slotOf a = some k) :
+    k < saveLen l := by
+  rw [saveLen_eq]
+  exact foldl_slot_mem l 0 a ha k hk
+
+theorem saveLen_le {l : List Atom} {M : Nat} (h : ∀ a ∈ l, ∀ k, slotOf a = some k → k < M) : saveLen l ≤ M := by
+  rw [saveLen_eq]
+  exact foldl_slot_le l 0 M (Nat.zero_le _) h
+
+/-! ## `Push`/`Pop` balance (only for inputs without `(`: see the counterexamples in Thm/C11Parse) -/
+
+/-- same number of `Push` and of `Pop` atoms -/
+def SameCnt (r r' : Array Atom) : Prop :=
+  r'.countP isPush = r.countP isPush ∧ r'.countP isPop = r.countP isPop
+
+theorem SameCnt.refl (r : Array Atom) : SameCnt r r := ⟨rfl, rfl⟩
+theorem SameCnt.trans {a b c : Array Atom} (h1 : SameCnt a b) (h2 : SameCnt b c) : SameCnt a c :=
+  ⟨h2.1.trans h1.1, h2.2.trans h1.2⟩
+theorem SameCnt.push {r : Array Atom} {a : Atom} (h1 : isPush a = false) (h2 : isPop a = false) :
+    SameCnt r (r.push a) := by
+  unfold SameCnt; simp [h1, h2]
+
+theorem setLast_push (ys : Array Atom) (j a : Atom) : setLast (ys.push j) a = ys.push a := by
+  unfold setLast
+  apply Array.ext_getElem?
+  intro i
+  grind
+
+/-- the balance invariant: no sub-pattern open and `#Push = #Pop + depth` -/
+def Bal (st : PSt) : Prop :=
+  st.subs = [] ∧ st.result.countP isPush = st.result.countP isPop + st.depth
+
+theorem Bal.of_same {st st' : PSt} (h : Bal st) (hs : st'.subs = st.subs) (hd : st'.depth = st.depth)
+    (hc : SameCnt st.result st'.result) : Bal st' := by
+  unfold Bal at *
+  rw [hs, hd, hc.1, hc.2]; exact h
+
+theorem opOpen_bal {st st'} (h : Bal st) (ho : opOpen st = .ok st') : Bal st' := by
+  unfold opOpen at ho
+  split at ho
+  · cases ho
+  · split at ho
+    · cases ho
+    · have key : ∀ (k : Nat) (j : Atom), isPush j = false → isPop j = false → st.result.back? = some j →
+          Bal { st with depth := st.depth + 1, result := (setLast st.result (.push k)).push j } := by
+        intro k j hj1 hj2 hb
+        obtain ⟨ys, hys⟩ := Array.back?_eq_some_iff.mp hb
+        obtain ⟨h1, h2⟩ := h
+        refine ⟨h1, ?_⟩
+        rw [hys] at h2
+        simp only [hys, setLast_push, Array.countP_push, isPush, isPop] at h2 ⊢
+        simp [hj1, hj2] at h2 ⊢
+        omega
+      split at ho
+      · next hb => cases ho; exact key 1 _ rfl rfl hb
+      · next hb => cases ho; exact key 4 _ rfl rfl hb
+      · next hb => cases ho; exact key 0 _ rfl rfl hb
+      · cases ho
+
+theorem opClose_bal {st st'} (h : Bal st) (ho : opClose st = .ok st') : Bal st' := by
+  unfold opClose at ho
+  split at ho
+  · cases ho
+  · split at ho
+    · cases ho
+    · cases ho
+      obtain ⟨h1, h2⟩ := h
+      refine ⟨h1, ?_⟩
+      simp only [Array.countP_push, isPush, isPop]
+      simp
+      omega
+
+theorem opSlot_bal {st st'} {mk : Nat → Atom} (h : Bal st) (hmk : ∀ n, isPush (mk n) = false ∧ isPop (mk n) = false)
+    (ho : opSlot st mk = .ok st') : Bal st' := by
+  unfold opSlot at ho
+  split at ho
+  · cases ho
+  · split at ho
+    · cases ho
+    · cases ho
+      exact h.of_same rfl rfl (SameCnt.push (hmk _).1 (hmk _).2)
+
+theorem opSkip_bal {st} (h : Bal st) : Bal (opSkip st).1 := by
+  have hplain : Bal (pushA st (.skip 1)) := h.of_same rfl rfl (SameCnt.push rfl rfl)
+  unfold opSkip
+  split
+  · split
+    · next n hb =>
+      split
+      · obtain ⟨ys, hys⟩ := Array.back?_eq_some_iff.mp hb
+        refine h.of_same rfl rfl ?_
+        simp only [hys, setLast_push]
+        unfold SameCnt
+        simp [isPush, isPop]
+      · exact hplain
+    · exact hplain
+  · exact hplain
+
+theorem emitRange_same {r : Array Atom} {n : Nat} {mk : Nat → Atom}
+    (hmk : ∀ n, isPush (mk n) = false ∧ isPop (mk n) = false) : SameCnt r (emitRange r n mk) := by
+  unfold emitRange
+  dsimp only
+  split
+  · exact (SameCnt.push rfl rfl).trans (SameCnt.push (hmk _).1 (hmk _).2)
+  · exact SameCnt.push (hmk _).1 (hmk _).2
+
+/-- `P` holds of the result when the step succeeds -/
+def Res.OkP {α : Type} (P : α → Prop) : Res α → Prop
+  | .ok a => P a
+  | _ => True
+
+theorem opMany_bal {st rest nx} (h : Bal st) (ho : opMany st rest = .ok nx) : Bal nx.st := by
+  have key : (opMany st rest).OkP (fun nx => Bal nx.st) := by
+    unfold opMany
+    cases manyLower rest 0 false with
+    | err k => trivial
+    | panic s => trivial
+    | ok p =>
+      obtain ⟨lb, seen, chr, rest1⟩ := p
+      dsimp only
+      have hr1 : SameCnt st.result (if lb > 0 then emitRange st.result lb .skip else st.result) := by
+        split
+        · exact emitRange_same (fun _ => ⟨rfl, rfl⟩)
+        · exact SameCnt.refl _
+      split
+      · trivial
+      · split
+        · exact h.of_same rfl rfl hr1
+        · cases manyUpper rest1 0 with
+          | err k => trivial
+          | panic s => trivial
+          | ok q =>
+            obtain ⟨ub, rest2⟩ := q
+            dsimp only
+            split
+            · split
+              · trivial
+              · exact h.of_same rfl rfl (hr1.trans (emitRange_same (fun _ => ⟨rfl, rfl⟩)))
+            · trivial
+  rw [ho] at key; exact key
+
+theorem opHex_bal {st chr rest nx} (h : Bal st) (ho : opHex st chr rest = .ok nx) : Bal nx.st := by
+  have key : (opHex st chr rest).OkP (fun nx => Bal nx.st) := by
+    unfold opHex
+    split
+    · trivial
+    · dsimp only
+      split
+      · trivial
+      · cases rest with
+        | nil => trivial
+        | cons c rest =>
+          dsimp only
+          generalize (if c.toNat ≥ 97 ∧ c.toNat ≤ 102 then some (c.toNat - 97 + 10)
+            else if c.toNat ≥ 65 ∧ c.toNat ≤ 70 then some (c.toNat - 65 + 10)
+            else if c.toNat ≥ 48 ∧ c.toNat ≤ 57 then some (c.toNat - 48) else none) = lo?
+          cases lo? with
+          | none => trivial
+          | some lo =>
+            dsimp only
+            split
+            · trivial
+            · exact h.of_same rfl rfl (SameCnt.push rfl rfl)
+  rw [ho] at key; exact key
+
+theorem quoted_same : ∀ (cs : List UInt8) (r r' : Array Atom) (rest' : List UInt8),
+    quoted cs r = some (r', rest') → SameCnt r r' := by
+  intro cs
+  induction cs with
+  | nil => intro r r' rest' h; simp [quoted] at h
+  | cons c cs ih =>
+    intro r r' rest' h
+    unfold quoted at h
+    split at h
+    · exact (SameCnt.push rfl rfl).trans (ih _ _ _ h)
+    · cases h; exact SameCnt.refl _
+
+theorem opQuote_bal {st rest nx} (h : Bal st) (ho : opQuote st rest = .ok nx) : Bal nx.st := by
+  unfold opQuote at ho
+  split at ho
+  · cases ho
+  · next r rest' hq =>
+    cases ho
+    exact h.of_same rfl rfl (quoted_same _ _ _ _ hq)
+
+theorem opAligned_bal {st rest nx} (h : Bal st) (ho : opAligned st rest = .ok nx) : Bal nx.st := by
+  have hplain : ∀ n, Bal (pushA st (.aligned n)) := fun n => h.of_same rfl rfl (SameCnt.push rfl rfl)
+  unfold opAligned at ho
+  split at ho
+  · cases ho
+  · dsimp only at ho
+    split at ho
+    · cases ho; exact hplain _
+    · split at ho
+      · split at ho
+        · cases ho
+        · cases ho; exact hplain _
+      · split at ho
+        · split at ho
+          · cases ho
+          · cases ho; exact hplain _
+        · cases ho
+
+theorem opRead_bal {st rest nx} {mk1 mk2 mk4 : Nat → Atom} (h : Bal st)
+    (h1 : ∀ n, isPush (mk1 n) = false ∧ isPop (mk1 n) = false)
+    (h2 : ∀ n, isPush (mk2 n) = false ∧ isPop (mk2 n) = false)
+    (h4 : ∀ n, isPush (mk4 n) = false ∧ isPop (mk4 n) = false)
+    (ho : opRead st rest mk1 mk2 mk4 = .ok nx) : Bal nx.st := by
+  unfold opRead at ho
+  split at ho
+  · cases ho
+  · next c rest =>
+    dsimp only at ho
+    have hmk : ∀ mk, (if c.toNat = 49 then some mk1 else if c.toNat = 50 then some mk2
+        else if c.toNat = 52 then some mk4 else none) = some mk →
+        ∀ n, isPush (mk n) = false ∧ isPop (mk n) = false := by
+      intro mk
+      split
+      · intro h; cases h; exact h1
+      · split
+        · intro h; cases h; exact h2
+        · split
+          · intro h; cases h; exact h4
+          · intro h; cases h
+    revert hmk ho
+    generalize (if c.toNat = 49 then some mk1 else if c.toNat = 50 then some mk2
+        else if c.toNat = 52 then some mk4 else none) = mk?
+    intro ho hmk
+    cases mk? with
+    | none => cases ho
+    | some mk =>
+      dsimp only at ho
+      cases hs : opSlot st mk with
+      | ok st' => rw [hs] at ho; cases ho; exact opSlot_bal h (hmk mk rfl) hs
+      | err k => rw [hs] at ho; cases ho
+      | panic site => rw [hs] at ho; cases ho
+
+theorem classify_subStart : ∀ c < 256, classify c = .subStart → c = 40 := by
+  decide +kernel
+
+theorem liftSt_ok {rest x nx} (h : liftSt rest x = .ok nx) : x = .ok nx.st := by
+  cases x with
+  | ok st => cases h; rfl
+  | err k => cases h
+  | panic s => cases h
+
+theorem tok_bal {st chr rest nx} (hchr : chr < 256) (hc : chr ≠ 40) (h : Bal st) (ht : tok chr rest st = .ok nx) :
+    Bal nx.st := by
+  unfold tok at ht
+  split at ht
+  · cases ht; exact h.of_same rfl rfl (SameCnt.push rfl rfl)
+  · cases ht; exact h.of_same rfl rfl (SameCnt.push rfl rfl)
+  · cases ht; exact h.of_same rfl rfl (SameCnt.push rfl rfl)
+  · exact opOpen_bal h (liftSt_ok ht)
+  · exact opClose_bal h (liftSt_ok ht)
+  · next hcl => exact absurd (classify_subStart chr hchr hcl) hc
+  · have := liftSt_ok ht
+    unfold opSubCase at this
+    rw [h.1] at this; cases this
+  · have := liftSt_ok ht
+    unfold opSubEnd at this
+    rw [h.1] at this; cases this
+  · exact opMany_bal h ht
+  · exact opHex_bal h ht
+  · exact opQuote_bal h ht
+  · exact opSlot_bal h (fun _ => ⟨rfl, rfl⟩) (liftSt_ok ht)
+  · cases ht; exact opSkip_bal h
+  · exact opAligned_bal h ht
+  · exact opRead_bal h (fun _ => ⟨rfl, rfl⟩) (fun _ => ⟨rfl, rfl⟩) (fun _ => ⟨rfl, rfl⟩) ht
+  · exact opRead_bal h (fun _ => ⟨rfl, rfl⟩) (fun _ => ⟨rfl, rfl⟩) (fun _ => ⟨rfl, rfl⟩) ht
+  · exact opSlot_bal h (fun _ => ⟨rfl, rfl⟩) (liftSt_ok ht)
+  · cases ht; exact h
+  · cases ht
+
+theorem parseLoop_bal : ∀ (fuel : Nat) (rest pat : List UInt8) (st : PSt) (r : Array Atom),
+    Inv st → Bal st → (∀ c ∈ rest, c ≠ (40 : UInt8)) → parseLoop fuel rest pat st = .ok r →
+    ∃ r0, r = trim r0 ∧ r0.countP isPush = r0.countP isPop := by
+  intro fuel
+  induction fuel with
+  | zero => intro rest pat st r _ _ _ h; simp [parseLoop] at h
+  | succ fuel ih =>
+    intro rest pat st r hinv hbal hno h
+    unfold parseLoop at h
+    cases rest with
+    | nil =>
+      dsimp only at h
+      unfold finish at h
+      by_cases hd : st.depth ≠ 0
+      · rw [if_pos hd] at h; cases h
+      · rw [if_neg hd] at h
+        by_cases hs : st.subs.length ≠ 0
+        · rw [if_pos hs] at h; cases h
+        · rw [if_neg hs] at h
+          cases h
+          refine ⟨st.result, rfl, ?_⟩
+          have := hbal.2
+          omega
+    | cons c rest =>
+      dsimp only at h
+      have hg := tok_good c.toNat rest hinv (UInt8.toNat_lt c)
+      cases ht : tok c.toNat rest st with
+      | ok nx =>
+        rw [ht] at h hg
+        dsimp only at h
+        obtain ⟨h1, h2⟩ := hg
+        have hc40 : c.toNat ≠ 40 := by
+          intro hc
+          apply hno c (by simp)
+          exact UInt8.toNat_inj.mp hc
+        refine ih _ _ _ _ h1 (tok_bal (UInt8.toNat_lt c) hc40 hbal ht) ?_ h
+        intro c' hc'
+        exact hno c' (List.mem_cons_of_mem _ (h2.subset hc'))
+      | err k => rw [ht] at h; cases h
+      | panic site => rw [ht] at h; cases h
+
+theorem initSt_bal : Bal initSt := by
+  refine ⟨rfl, ?_⟩
+  decide
+
+/-- for a pattern string without the byte `(`: the untrimmed result has as many `Push` as `Pop` atoms -/
+theorem parse_balanced_of_no_paren {s : List UInt8} {atoms : List Atom} (hno : ∀ c ∈ s, c ≠ (40 : UInt8))
+    (h : parse s = .ok atoms) :
+    ∃ tail, (∀ a ∈ tail, isRedundant a = true) ∧
+      (atoms ++ tail).countP isPush = (atoms ++ tail).countP isPop := by
+  unfold parse at h
+  cases hl : parseLoop (s.length + 1) s s initSt with
+  | ok r =>
+    rw [hl] at h
+    cases h
+    obtain ⟨r0, rfl, hcnt⟩ := parseLoop_bal _ _ _ _ _ initSt_inv initSt_bal hno hl
+    obtain ⟨tail, h1, h2, _⟩ := trim_append r0
+    refine ⟨tail, h2, ?_⟩
+    rw [← h1]
+    simpa [Array.countP_toList] using hcnt
+  | err k pat => rw [hl] at h; dsimp only at h; split at h <;> cases h
+  | panic site => rw [hl] at h; cases h
+  | diverge => rw [hl] at h; cases h
+
 end Pelite.Pattern
